@@ -13,8 +13,8 @@ CFG = {
     "package": "c20", "bin": "c20",
     "pre": _pre,
     "profiles": ["dev", "release"], "workers": 8,
-    "rule": ("Family of 18 derived shapes (ReqOpt, Aliases, Flags, OptOpt, Rep, Mixed, Pos1, Pos2, PosOpt, Pos3, OptsAndPos, "
-             "Custom, WithSub, WithOptSub, ReqWithSub, Cased, Hosty, Entry; subcommand enums Cmd{Run(RunArgs),Clean,Nested(Inner{Leaf})}, "
+    "rule": ("Family of 19 derived shapes (ReqOpt, Aliases, Flags, OptOpt, Rep, Mixed, Pos1, Pos2, PosOpt, Pos3, OptsAndPos, "
+             "Custom, WithSub, WithOptSub, ReqWithSub, Cased, Hosty, Entry, SubMiddle; subcommand enums Cmd{Run(RunArgs),Clean,Nested(Inner{Leaf})}, "
              "Leaf{Alpha,BetaGamma(LeafOpts)}) written in the harness, derives from /repo/tiny-cli. "
              "rt: a value of the shape is generated constructively (strings with spaces, leading dashes, '=', unicode, "
              "control characters, empty, up to 10 kB; non-UTF-8 bytes for UnixStr fields; full-range integers; values equal to "
@@ -35,7 +35,7 @@ CFG = {
              "line whose cause overflowed the buffer, or a cause within 8 bytes of the buffer size; distinct by hash of the "
              "serialised case."),
     "assumptions": [
-        "x86_64 only; the derive is exercised on the 18 shapes of the family (one compile-time instantiation each), not on generated struct declarations",
+        "x86_64 only; the derive is exercised on the 19 shapes of the family (one compile-time instantiation each), not on generated struct declarations",
         "declared grammar = options (each single-valued option at most once, value = next argument whatever it looks like), "
         "then positionals in declaration order (an argument that is no option token and no help token fills the next free slot, "
         "also when it starts with '-': required by the round-trip clause), then at most one subcommand which owns the rest of the line",
